@@ -31,6 +31,11 @@ claimed["C11"] = ("contract-based deductive verification: zero-annotation panic-
   "Trusted: callers establish the stated preconditions (each call site inside the contract set is itself an obligation); assumed library models; trusted contracts listed in evidence.",
   "DESIGN.md §5 C11")
 
+claimed["C08"] = ("contract-based deductive verification: frame (modifies) obligations generated from go/ssa and discharged by z3/cvc5; frame contracts of helper functions inferred and verified by a greatest-fixed-point (Houdini) iteration over the call graph",
+  "For every handler of the read-only operator set the obligation 'no store into a pre-existing document node when the context has DontAutoCreate' is proved for all inputs, transitively through every yq function it can reach (187 functions; each inferred summary is verified against the function body assuming the callees' summaries; hand-written contracts for the dispatcher and tree primitives); operators whose operands/predicates/keys must be side-effect free unconditionally are required to be PURE. Known findings F3 (==, <, //) and F5 (index reads pad arrays / retag nulls) are carved out by obligation name with replayed witnesses.",
+  "Standing assumption: the evaluated expression contains only operators of tables/readonly_ops.json (the property's hypothesis); the dispatcher contract is trusted and established handler by handler; encodeToString is read-only for YAML (assumed); external libraries do not write yq nodes; Go maps unmodelled.",
+  "DESIGN.md §5 C08")
+
 not_yet = {}
 
 def main():
